@@ -28,6 +28,8 @@ pub struct Knobs {
     pub limit_max: u32,
     pub seg_choices: Vec<u16>,
     pub handlers: bool,
+    /// sometimes a (stale) file already exists under the destination name
+    pub stale_dest: bool,
 }
 impl Default for Knobs {
     fn default() -> Self {
@@ -44,6 +46,7 @@ impl Default for Knobs {
             limit_max: 4,
             seg_choices: SEGS.to_vec(),
             handlers: false,
+            stale_dest: true,
         }
     }
 }
@@ -139,6 +142,15 @@ pub fn add_file_put(sc: &mut Scenario, rng: &mut Rng, k: &Knobs, src: usize, dst
     let seg = sc.ents[src].seg as u64;
     let size = draw_size(rng, seg, k.max_segments, k.max_bytes);
     let unack = k.unack.unwrap_or_else(|| rng.chance(1, 3));
+    if k.stale_dest && rng.chance(1, 4) {
+        // an older, different file under the destination name (longer, shorter, empty)
+        let stale = *rng.pick(&[size + 1, size + seg, 2 * size + 7, size / 2, 0, size.saturating_sub(1), 3 * seg]);
+        sc.pre.push(Pre {
+            ent: dst,
+            path: format!("dst{}_{}_{}.bin", src, dst, idx),
+            file: Some(FileSpec { size: stale, class: Content::Text, cseed: rng.next_u64() }),
+        });
+    }
     sc.puts.push(Put {
         src,
         dst,
